@@ -2,6 +2,7 @@ import OpusModel.DecSkel
 import OpusModel.SilkPlcGains
 import OpusModel.CeltIdx
 import OpusModel.CeltIdxCalls
+import OpusModel.CeltCallees2
 import Driver.Util
 /-
   Suite `decskel` (C01 / C09): replay of one decoder call on the control skeleton.
@@ -313,6 +314,33 @@ def handle : List String → String
       match call with
       | none => "bad-op"
       | some c => ",".intercalate (c.accs.map fun a => s!"{a.ext.lo}..{a.ext.hi}{if a.write then "w" else "r"}")
+  -- C01 slice CeltCallees2: `decskel ext2 mdct <shift> <stride> <ov>` | `ext2 denorm <start> <end> <M> <ds> <silence>` |
+  -- `ext2 psearch <len> <max_pitch> <bA> <bB> <b0>` → `<array>=<lo>..<hi>|-` for the argument arrays, mode tables and
+  -- ALLOCed arrays of the routine: smallest / largest element index of the index model (OpusModel/CeltCallees2.lean)
+  | "ext2" :: fn :: args =>
+    match args.mapM parseInt with
+    | none => "bad-op"
+    | some v =>
+      let show_ (l : List Opus.CeltCallees2.Hit) (as : List (String × Opus.CeltCallees2.CArr)) : String :=
+        " ".intercalate (as.map fun (nm, a) => match Opus.CeltCallees2.extOf l a with | some (lo, hi) => s!"{nm}={lo}..{hi}" | none => s!"{nm}=-")
+      match fn, v with
+      | "mdct", [shift, stride, ov] =>
+        if shift < 0 ∨ shift > 3 then "bad-op" else
+        show_ (Opus.CeltCallees2.mdctHits shift stride ov) [("in", .inp), ("out", .out), ("win", .win), ("trig", .trig), ("bitrev", .bitrev), ("tw", .tw), ("factors", .factors)]
+      -- `ext2 fft <shift>`: per butterfly call of opus_fft_impl (execution order) `<radix>:fout=<lo>..<hi>,tw=<lo>..<hi>|-`
+      | "fft", [shift] =>
+        if shift < 0 ∨ shift > 3 then "bad-op" else
+        " ".intercalate ((Opus.CeltCallees2.stagesOf (Opus.CeltCallees2.kfft shift)).map fun st =>
+          let l := Opus.CeltCallees2.stageHits st
+          let e (a : Opus.CeltCallees2.CArr) : String := match Opus.CeltCallees2.extOf l a with | some (lo, hi) => s!"{lo}..{hi}" | none => "-"
+          s!"{st.p}:fout={e .fout},tw={e .tw}")
+      | "denorm", [start, end_, M, ds, silence] =>
+        show_ (Opus.CeltCallees2.denormHits start end_ M ds (silence ≠ 0)) [("X", .X), ("freq", .freq), ("bandE", .bandE), ("eBands", .eBands)]
+      | "psearch", [len, maxp, bA, bB, b0] =>
+        show_ (Opus.CeltCallees2.psearchHits len maxp bA bB b0) [("xlp", .xlp), ("y", .y), ("xlp4", .xlp4), ("ylp4", .ylp4), ("xcorr", .xcorr)] ++
+          -- the ALLOC sizes the in-bounds theorem uses (`psearchB`): x_lp4[len>>2], y_lp4[(len+max_pitch)>>2], xcorr[max_pitch>>1]
+          s!" alloc={(Opus.CeltCallees2.psearchAlloc len maxp .xlp4)},{(Opus.CeltCallees2.psearchAlloc len maxp .ylp4)},{(Opus.CeltCallees2.psearchAlloc len maxp .xcorr)}"
+      | _, _ => "bad-op"
   | ["combext", t0, t1, n, ovl, g0z, g1z, gs, ip] =>
     match parseInt t0, parseInt t1, parseInt n, parseInt ovl, parseInt g0z, parseInt g1z, parseInt gs, parseInt ip with
     | some t0, some t1, some n, some ovl, some g0z, some g1z, some gs, some ip =>
